@@ -12,7 +12,7 @@ def classify_crash(cr):
 
 SPEC = {
     'id': 'C15',
-    'lean_modules': ['AITB.Props.C15', 'AITB.Props.C15Gen', 'AITB.Props.C15Top'],
+    'lean_modules': ['AITB.Props.C15', 'AITB.Props.C15Gen', 'AITB.Props.C15Top', 'AITB.Props.C15Mdp'],
     'theorems': [
         'AITB.FLP.weak_duality_sound',
         'AITB.FLP.optimalPair_sound',
@@ -34,6 +34,20 @@ SPEC = {
         'AITB.FLP.flpSetup_spec',
         'AITB.FLP.flp_named_err',
         'AITB.FLP.factoredLP_equiv',
+        'AITB.FLP.mdp_core',
+        'AITB.FLP.qSum_mdpEntries',
+        'AITB.FLP.selSum_pick',
+        'AITB.FLP.itemsLoop_spec',
+        'AITB.FLP.tip_join',
+        'AITB.FLP.smIdx_inj',
+        'AITB.FLP.evalH',
+        'AITB.FLP.evalM',
+        'AITB.FLP.mdpSetup_spec',
+        'AITB.FLP.mdpLP_sound',
+        'AITB.FLP.mdpLP_equiv',
+        'AITB.FLP.expect_linear',
+        'AITB.FLP.gform_eq_backup',
+        'AITB.FLP.mdpLP_equiv_bellman',
     ],
     'harness': 'harness/c15.cpp',
     # the calls LpSolveWrapper.cpp makes into lp_solve are recorded at link time (the library is not modified)
